@@ -52,6 +52,12 @@ PROPS["C19"] = dict(
         dict(id="C19.d3", harness="C19_archive.cpp", entry="h_c19d_string", cut=[STRING_REALLOC],
              desc="archive_traits<std::string>::load on arbitrary bytes (same)",
              tiers=T(quick=dict(defs=dict(VERIF_N=18), unwind=28, timeout=900, bounds="archive image of symbolic length 0..18, arbitrary bytes"))),
+        dict(id="C19.f", harness="C19_archive.cpp", entry="h_c19f_list_arbitrary", cut=[STRING_REALLOC],
+             desc="archive_traits<std::list<short>>::load (generic container path: untrusted 64-bit count, one chunk per element, insert_iterator) on arbitrary bytes: throws, or the list is exactly the stored elements in order; never outside the archive",
+             tiers=T(quick=dict(defs=dict(VERIF_N=24), unwind=28, timeout=900, bounds="archive image of symbolic length 0..24, arbitrary bytes (up to 2 elements)"))),
+        dict(id="C19.g", harness="C19_archive.cpp", entry="h_c19g_container_roundtrip", cut=[STRING_REALLOC],
+             desc="generic container path, std::pair and T[n] traits: load(save(x)) == x, previous content replaced, archive fully consumed",
+             tiers=T(quick=dict(split=[[0, 1, 2]], unwind=28, timeout=900, bounds="list of 0..2 symbolic shorts, pair<int,unsigned char>, long long[2]"))),
     ],
 )
 
@@ -80,6 +86,13 @@ PROPS["C14"] = dict(
              cut=[STRING_REALLOC],
              tiers=T(quick=dict(split=[[0, 1, 2, 3]], unwind="max(p0+2,4)", timeout=600, bounds="every byte string of length 0..3 (one solver instance per length), replacement 0 or printable; output string never reallocates (checked)"),
                      thorough=dict(split=[[0, 1, 2, 3, 4, 5]], unwind="max(p0+2,4)", timeout=3000, bounds="every byte string of length 0..5"))),
+        dict(id="C14.f", harness="C14_validators.cpp", entry="h_c14f_filter_single_byte", ctors=False, cut=[STRING_REALLOC],
+             desc="validate_or_filter_single_byte_charset: verdict <=> every byte valid; otherwise output = input with each invalid byte replaced (dropped for replacement 0), order kept",
+             tiers=T(quick=dict(split=[[0, 1, 6, 9, 16], [0, 1, 2, 3]], unwind=8, timeout=600, bounds="5 of the 17 validators (ascii, iso-8859-1 family, iso-8859-11, windows-1252, koi8) x every byte string of length 0..3, every replacement byte"),
+                     thorough=dict(split=[list(range(17)), [0, 1, 2, 3]], unwind=8, timeout=1800, bounds="17 validators x every byte string of length 0..3"))),
+        dict(id="C14.g", harness="C14_validators.cpp", entry="h_c14g_name_comparator", ctors=False,
+             desc="encodings_comparator (validator dispatch order) == lexicographic order of the names reduced to lower-case alphanumerics; asymmetric; equivalent only for equal normalised names",
+             tiers=T(quick=dict(split=[[0, 1, 3], [0, 2, 3]], unwind=8, timeout=600, bounds="every pair of names with lengths in {0,1,3} x {0,2,3}, arbitrary non-NUL bytes"))),
     ],
 )
 
@@ -115,6 +128,16 @@ PROPS["C15"] = dict(
         dict(id="C15.d2", harness="C15_codecs.cpp", entry="h_c15d_b64_decode_safety", ctors=False,
              desc="b64url::decode on arbitrary bytes of acceptable length stays inside both exact-size buffers; string overload rejects length = 1 mod 4",
              tiers=T(quick=dict(split=[list(range(0, 10))], unwind=16, timeout=600, bounds="every byte string of length 0..9"))),
+        dict(id="C15.e", harness="C15_streams.cpp", entry="h_c15e_b64_ostream", ctors=False,
+             desc="b64url::encode(begin,end,std::ostream&) writes byte for byte what the pointer form (C15.d) writes, real std::ostream::write over a recording streambuf",
+             tiers=T(quick=dict(split=[list(range(0, 8))], unwind=16, timeout=600, bounds="every input of length 0..7"),
+                     thorough=dict(split=[list(range(0, 14))], unwind=24, timeout=1800, bounds="every input of length 0..13"))),
+        dict(id="C15.f", harness="C15_streams.cpp", entry="h_c15f_escape_ostream", ctors=False, big_alloc=288,
+             desc="util::escape(begin,end,std::ostream&) == the streambuf form (C15.a); failbit <=> the sink failed; a failed stream is not written to",
+             tiers=T(quick=dict(split=[[0, 1, 2, 3]], unwind="6*p0+3", timeout=600, bounds="every input of length 0..3, sink failing after any number of bytes, stream failed beforehand or not"))),
+        dict(id="C15.g", harness="C15_streams.cpp", entry="h_c15g_urlencode_forms", ctors=False, cut=[STRING_REALLOC],
+             desc="util::urlencode(b,e,std::ostream&) (ostream_iterator / operator<<) and util::urlencode(std::string) == the streambuf form (C15.b)",
+             tiers=T(quick=dict(split=[[0, 1, 2, 3]], unwind=20, timeout=600, bounds="every input of length 0..3"))),
     ],
 )
 
